@@ -1,7 +1,7 @@
 (** * Driver2: the operation alphabet extended with counting, picking,
       structural queries and variable removal.  ([Driver.v] is kept as the
       alphabet of the first history theorems.) *)
-From DD Require Export Driver Sat.
+From DD Require Export Driver Sat Export.
 
 Inductive op2 :=
   | O1 (o : op)
@@ -15,7 +15,9 @@ Inductive op2 :=
   | OVarAtLevel (l : nat)
   | OLen
   | OContains (u : Z)
-  | OShutdown.
+  | OShutdown
+  | OToNx (roots : list Z)
+  | OToDot (roots : option (list Z)).
 
 Definition vassign (m : gmap nat bool) : value :=
   VL ((fun k => VL [VN k; VB (default false (m !! k))]) <$>
@@ -28,6 +30,13 @@ Definition shutdown : MS bool :=
   collect_garbage None ;;;
   s <- get ;;
   ret (bool_decide (map_Forall (fun _ r => r = 0) (refc s))).
+
+Definition vgraph (g : xgraph) : value :=
+  VL [VL ((fun '(n, l) => VL [VZ (Z.pos n); VN l]) <$> x_nodes g);
+      VL ((fun '(u, v, a, c) => VL [VZ (Z.pos u); VZ (Z.pos v); VB a; VB c]) <$> x_edges g);
+      VL (VZ <$> x_refs g);
+      VL ((fun '(n, o) => VL [VZ (Z.pos n); match o with Some v => VN v | None => VU end])
+            <$> x_labels g)].
 
 Definition run_op2 (w : world) (o : op2) : MS value :=
   match o with
@@ -46,6 +55,8 @@ Definition run_op2 (w : world) (o : op2) : MS value :=
   | OLen => s <- get ;; ret (VN (len s))
   | OContains u => s <- get ;; ret (VB (mem u s))
   | OShutdown => r <- shutdown ;; ret (VB r)
+  | OToNx roots => g <- to_nx roots ;; ret (vgraph g)
+  | OToDot roots => g <- to_dot roots ;; ret (vgraph g)
   end.
 
 Definition step2 (w : world) (m : nat) (o : op2) : world * res value :=
